@@ -309,6 +309,34 @@ def make_history(gen, maxlen):
         ops.extend(wide_document_pattern(gen, pool))
     if r.random() < 0.3:
         ops.extend(configure_after_use_pattern(gen, pool))
+    if r.random() < 0.5:
+        # the same two notebooks compared in BOTH directions, B->A first (a review tool showing "what would undo this"),
+        # with sources whose similarity sits near the alignment thresholds; title cell + few cells
+        from ..workloads import valid_pair
+        from ..gen_nb import validate_nb as _v
+        for _ in range(r.choice([1, 2])):
+            cls_, a_, b_, rec_, w_ = valid_pair(gen, cls="sim_straddle")
+            if cls_ is None:
+                continue
+            for nb_ in (a_, b_):
+                nb_["cells"] = nb_["cells"][:r.choice([1, 2, 3])]
+            if _v(a_) or _v(b_):
+                continue
+            from ..workloads import asymmetric_similarity_sources
+            xy = asymmetric_similarity_sources(gen) if r.random() < 0.6 else None
+            if xy:
+                # the one code cell's similarity is above the alignment threshold in one argument order and below it in
+                # the other (difflib's ratio is not symmetric)
+                a_["cells"][0]["source"], b_["cells"][0]["source"] = xy
+                a_["cells"], b_["cells"] = a_["cells"][:1], b_["cells"][:1]
+                for nb_ in (a_, b_):
+                    nb_["cells"].insert(0, {"cell_type": "markdown", "metadata": {}, "source": "# Title"})
+                    if nb_["nbformat_minor"] >= 5:
+                        nb_["cells"][0]["id"] = "title-cell"
+                if _v(a_) or _v(b_):
+                    continue
+            ops.append({"op": "diff_notebooks", "A": b_, "B": a_})
+            ops.append({"op": "diff_notebooks", "A": a_, "B": b_})
     chain = revision_chain(gen) if r.random() < 0.6 else []
     for _ in range(n):
         if chain and r.random() < 0.3:
